@@ -25,6 +25,7 @@ type Env struct {
 	fn      *ssa.Function // function whose locals may be named
 	hints   []string
 	cur     *State // state in which now(...) is evaluated (set when entering old(...))
+	atCallSite bool // translating a callee's contract at a call site: callres/called of the callee are not available
 }
 
 type specErr struct{ msg string }
@@ -908,6 +909,9 @@ func (env *Env) call(c *ECall) Val {
 			sfail("called(Callee, n)")
 		}
 		n, _ := strconv.Atoi(c.Args[1].String())
+		if env.atCallSite {
+			sfail("called: not available at a call site")
+		}
 		for _, rec := range env.ex.callLog {
 			if rec.short == cid.Name && rec.ord == n {
 				pc := rec.pc
@@ -926,6 +930,9 @@ func (env *Env) call(c *ECall) Val {
 		}
 		n, _ := strconv.Atoi(c.Args[1].String())
 		i, _ := strconv.Atoi(c.Args[2].String())
+		if env.atCallSite {
+			sfail("callres: not available at a call site")
+		}
 		for _, rec := range env.ex.callLog {
 			if rec.short == cid.Name && rec.ord == n {
 				if i >= len(rec.res) {
